@@ -3,14 +3,14 @@ from plans import step
 PLAN = dict(
     coq_targets=["Props/C19.vo"],
     steps=[
-        # all 20 families x k = 1..16 (growth test on the generic measure), stage outputs of k <= 8 and of
+        # all 22 families x k = 1..16 (growth test on the generic measure), stage outputs of k <= 8 and of
         # n random programs re-measured with the Coq size functions (tie + proved bounds + ratio bounds)
         step("families-and-random", "sizes", "sizes", 40, 1200, shards_thorough=4),
         # the proved bounds evaluated up to k = 16 on the three fastest-growing families
         step("families-deep", "sizes", "sizes", 0, 0, shards_thorough=1,
-             args=["tie=16", "family=crit_data_call3", "family=mixed", "family=seq_if_live", "family=let_match3_live"]),
+             args=["tie=16", "family=crit_data_call3", "family=mixed", "family=seq_if_live", "family=let_match3_live", "family=crit_data_label3"]),
     ],
-    rule="REAL pipeline (parse, check, fun2core, focus, shrink, linearize, x86-64 / AArch64 / RISC-V code generators) on 20 scalable program "
+    rule="REAL pipeline (parse, check, fun2core, focus, shrink, linearize, x86-64 / AArch64 / RISC-V code generators) on 22 scalable program "
          "families (harness/src/gen_families.rs: sequenced / nested conditionals, sequenced / nested matches on 2-, 3-, 5-constructor types, "
          "case-of-case, chains of lets over matches, critical pairs at data types (call with a mu~ continuation, label/goto) and at a codata type "
          "(label/goto returning `new`), destructor chains, mixed; source size linear in k, k = 1..16; variants with all k results alive and with O(1) "
